@@ -344,5 +344,5 @@ func exec(t *testing.T, s Script) *vstat.Violation {
 func TestAttribution(t *testing.T) {
 	rig.Certs()
 	col.Mandatory("free-running:true", "free-running:false", "overlapping-lifetimes", "proto:h2", "proto:http/1.1", "reconnect-with-different-hello")
-	vstat.Run(t, vstat.Spec[Script]{Col: col, Quick: 400, Thorough: 10000, Gen: gen, Exec: func(s Script) *vstat.Violation { return exec(t, s) }})
+	vstat.Run(t, vstat.Spec[Script]{Col: col, Quick: 400, Thorough: 10000, Gen: gen, ScheduleDependent: true, Exec: func(s Script) *vstat.Violation { return exec(t, s) }})
 }
